@@ -328,6 +328,14 @@ def tensor_zp_scale_from_min_max(
     bound_max = np.maximum(max_value, np.zeros_like(max_value))
     bound_min = np.minimum(min_value, np.zeros_like(min_value))
     bound = np.maximum(bound_max - bound_min, min_bound)
+    if not np.all(np.isfinite(bound)):
+      # The width of a finite range can overflow the input dtype (e.g. float32
+      # [-2e38, 3e38]); compute it in double precision then.
+      bound = np.maximum(
+          np.asarray(bound_max, dtype=np.float64)
+          - np.asarray(bound_min, dtype=np.float64),
+          min_bound,
+      )
     scale = bound / (qmax - qmin)
     zp = qmin - bound_min / scale
     zp = np.rint(zp)
